@@ -35,6 +35,9 @@ type Binding struct {
 	Leaves  []LeafBinding
 	Reqs    []Req
 	Ballast []Ballast
+	// Unique: lists whose items the JSON schema wants to differ (uniqueItems). A case whose file part
+	// would hold two equal items in one of them is bound with the first binding of the shape instead.
+	Unique []string
 }
 
 func lb(path, kind, v0, v1 string) LeafBinding {
@@ -157,6 +160,14 @@ var Bindings = map[string][]Binding{
 			lb("serve.management.cors.allow_credentials", KBool, "true", "false"),
 			lb("metrics.enabled", KBool, "false", "true"),
 		}},
+		// equal entries: the value roles alternate from leaf to leaf, so the three elements get one value
+		{Name: "proxy-trusted-proxies-equal", Leaves: []LeafBinding{
+			lb("serve.proxy.trusted_proxies.0", KString, "10.3.0.1", "10.3.1.0/24"),
+			lb("serve.proxy.trusted_proxies.1", KString, "10.3.1.0/24", "10.3.0.1"),
+			lb("serve.proxy.trusted_proxies.2", KString, "10.3.0.1", "10.3.1.0/24"),
+			lb("serve.proxy.host", KString, "127.0.0.6", "127.0.0.7"),
+			lb("metrics.enabled", KBool, "false", "true"),
+		}},
 	},
 	// << m.n.l_s.0, m.n.l_s.1, m.o.l_s.0, m.o.l_s.1, m.n.a, m.o.a >> : two lists below sibling maps
 	"two-lists": {
@@ -194,6 +205,17 @@ var Bindings = map[string][]Binding{
 			lb("mechanisms.authenticators.1.type", KString, "unauthorized", "anonymous"),
 			lb("mechanisms.authenticators.2.id", KString, "an2a", "an2b"),
 			lb("secrets_reload_enabled", KBool, "true", "false"),
+		}},
+		// two elements of one type: equal values under different indices are different leaves (the schema
+		// wants the items of this list to differ: splits whose file part holds the types only fall back to
+		// the first binding)
+		{Name: "authorizers-same-type", Ballast: mechanismBallast, Unique: []string{"mechanisms.authorizers"}, Leaves: []LeafBinding{
+			lb("mechanisms.authorizers.0.id", KString, "az0a", "az0b"),
+			lb("mechanisms.authorizers.0.type", KString, "allow", "deny"),
+			lb("mechanisms.authorizers.1.id", KString, "az1a", "az1b"),
+			lb("mechanisms.authorizers.1.type", KString, "allow", "deny"),
+			lb("mechanisms.authorizers.2.id", KString, "az2a", "az2b"),
+			lb("log.level", KLogLevel, "debug", "trace"),
 		}},
 	},
 	// << m.l.0.a, m.l.0.c.x, m.l.0.c.y_z, m.l.1.a, m.l.1.b, m.l.1.c.x >> : maps inside list elements
@@ -260,6 +282,15 @@ var Bindings = map[string][]Binding{
 			lb("default_rule.execute.1.contextualizer", KAnyString, "cx1a", "cx1b"),
 			lb("default_rule.execute.1.config.forward_headers.0", KAnyString, "X-A", "X-B"),
 			lb("default_rule.backtracking_enabled", KBool, "true", "false"),
+		}},
+		// the same audience at the same position of the lists of two elements
+		{Name: "authenticators-assertions-audience-equal", Ballast: authenticatorConfigBallast, Leaves: []LeafBinding{
+			lb("mechanisms.authenticators.0.id", KString, "an0a", "an0b"),
+			lb("mechanisms.authenticators.0.config.assertions.audience.0", KAnyString, "aud-a", "aud-b"),
+			lb("mechanisms.authenticators.0.config.assertions.audience.1", KAnyString, "aud-a", "aud-b"),
+			lb("mechanisms.authenticators.1.id", KString, "an1a", "an1b"),
+			lb("mechanisms.authenticators.1.config.assertions.audience.0", KAnyString, "aud-b", "aud-a"),
+			lb("log.level", KLogLevel, "debug", "trace"),
 		}},
 	},
 	// << d_r.b_e, d_r.x.0.a, d_r.x.0.c.s, d_r.x.1.z, d_r.x.2.f, d_r.o_e.0.e_h >> : lists of free-form maps
